@@ -18,5 +18,9 @@ CLAIMED = {
  "C16": ("exploration",
          "Integers of the boundary pool in both representations through str/$/print/format strings in base 2, 8, 10, 16, int(str), number(str), repr+eval and str_radix/int_radix in every base 2..36; the decimal/scientific/p-over-q grammar through rational; every byte string up to the length bound through hex, base64, gzip and utf8; every Unicode scalar value through chr/ord (thorough); every JSON-shaped value of depth <= 2 through json_encode/decode, literal syntax and repr+eval - all compared with Python's codecs.",
          GRID_NOTE, GRID_TECH, "DESIGN.md §4 C16"),
+ "C09": ("model_checking",
+         "Explicit-state breadth-first search: from three start dictionaries (empty, with default, populated) every sequence up to depth 2 (quick) / 3 (thorough) of ten dictionary operations over a key pool holding several representatives of each ==-class is executed on the real interpreter; after every transition the dictionary contents (including which representative is stored) and a full battery of observations for every pool key are compared with a lock-step Python finite-map model. States are merged on the engine's canonical dump; an unmerged run one level shallower must give the same verdicts. Plus an exhaustive grid of key sequences through the constructor/aggregate builtins.",
+         "trusted: the Python finite-map model (class table of the key pool), the engine's canonical dump of the dictionary, replay-from-scratch as state reconstruction; bounded by depth and key pool",
+         "explicit-state BFS over operation histories of the real interpreter with lock-step reference model (every transition validated), state merging on canonical dumps", "DESIGN.md §4 C09, §3.3"),
 }
 NOT_YET ={("C%02d" % i): "check not built yet in this session (design in DESIGN.md §4); will be claimed when its explorer exists" for i in range(1, 18)}
